@@ -60,6 +60,9 @@ let parse_steps hd s : step list =
     | 'M' -> (match split '.' arg with
         | [who; i; best] -> SAnnounceMsg (n_of_hex who, hd.(int_of_n (n_of_hex i)), n_of_hex best)
         | _ -> fail "bad announce %s" st)
+    | 'N' -> (match split '.' arg with
+        | [n; best; target] -> SNextActions (n_of_hex n, n_of_hex best, n_of_hex target)
+        | _ -> fail "bad next-actions %s" st)
     | 'P' -> SProcess (parse_results hd arg)
     | _ -> fail "bad step %s" st) (split '|' s)
 
@@ -201,12 +204,24 @@ let check inp obs =
     let stepl = parse_steps hd steps in
     (* model *)
     let ((outs, panicked), _) = run fixed fixed fixed badl (init_state N0) stepl in
+    (* NextActions: the queue before the step is the queue of the last result *)
+    let rec take n l = if n <= 0 then [] else match l with [] -> [] | x :: r -> x :: take (n - 1) r in
+    let rec drop n l = if n <= 0 then l else match l with [] -> [] | _ :: r -> drop (n - 1) r in
+    let queue = ref [] in
     let rec render steps outs = match steps, outs with
       | s :: sr, o :: orr ->
-        (match s, o with
-         | SProcess rs, Some r -> render_process badl rs r
-         | SAnnounceMsg _, Some r -> render_announce r
-         | _, _ -> ".") :: render sr orr
+        let cur = (match s, o with
+         | SProcess rs, Some r -> queue := r.pr_state.p_queue; render_process badl rs r
+         | SAnnounceMsg _, Some r -> queue := r.pr_state.p_queue; render_announce r
+         | SNextActions (n, best, target), _ ->
+           let k = int_of_n n in
+           let popped = take k !queue in
+           queue := drop k !queue;
+           String.concat ";" [ "t"; join "," (List.map q_str popped);
+             join "," (List.map (fun (a, m) -> hex_of_n a ^ ":" ^ hex_of_n m) (next_asc n best target));
+             join "," (List.map q_str !queue) ]
+         | _, _ -> ".") in
+        cur :: render sr orr
       | s :: _, [] ->
         if panicked then (match s with
           | SProcess rs -> ["panic;-;" ^ acc_str badl rs]
@@ -217,7 +232,8 @@ let check inp obs =
     let obs_steps = split '|' obs in
     let obs_panic = List.exists (fun o -> String.length o >= 5 && String.sub o 0 5 = "panic") obs_steps in
     let is_ann o = String.length o >= 2 && String.sub o 0 2 = "m;" in
-    let proc_obs = List.filter (fun o -> o <> "." && not (is_ann o)) obs_steps in
+    let is_next o = String.length o >= 2 && String.sub o 0 2 = "t;" in
+    let proc_obs = List.filter (fun o -> o <> "." && not (is_ann o) && not (is_next o)) obs_steps in
     let ann_obs = List.filter is_ann obs_steps in
     let parsed = List.map (fun o -> match split ';' o with
       | [_; ev; _; _; _; _; _; acc] -> (parse_events ev, parse_acc acc)
@@ -238,7 +254,26 @@ let check inp obs =
       | _ :: sr, _ -> rejections sr outs
       | [], _ -> true in
     let rej = rejections stepl parsed in
-    let prop = (not obs_panic) && hist && rej in
+    (* NextActions (C32_next_actions_requests on the Go observables): the ascending requests tile
+       best+1 .. min(best+1+n*127, target) when the node lags, and there are none otherwise *)
+    let next_ok = List.for_all2 (fun s o -> match s with
+      | SNextActions (n, best, target) when String.length o >= 2 && String.sub o 0 2 = "t;" ->
+        (match split ';' o with
+         | [_; _; a; _] ->
+           let reqs = if a = "-" then Some [] else
+               (try Some (List.map (fun e -> match split ':' e with
+                    | [x; y] -> (n_of_hex x, n_of_hex y) | _ -> raise Exit) (split ',' a)) with _ -> None) in
+           (match reqs with
+            | None -> false
+            | Some l ->
+              if N.ltb best target then
+                let start = N.add best (ni 1) in
+                let stop = N.min (N.add start (N.mul n (ni 127))) target in
+                plan_ok_b start stop l
+              else l = [])
+         | _ -> false)
+      | _ -> true) (take (List.length obs_steps) stepl) (take (List.length stepl) obs_steps) in
+    let prop = (not obs_panic) && hist && rej && next_ok in
     let nproc l = List.length (List.filter (function SProcess _ -> true | _ -> false) l) in
     let all_events = List.concat (List.map fst parsed) in
     let nimports = List.length (List.filter (function EImport _ -> true | _ -> false) all_events) in
@@ -271,6 +306,9 @@ let check inp obs =
            | [_; _; _; _; _; d; _; _] -> d <> "-" | _ -> false) proc_obs then "disjoint-kept" else "");
       (if List.exists (fun s -> match s with SAnnounce _ -> true | _ -> false) stepl then "announce" else "");
       (if ann_obs <> [] then "announce-msg" else "");
+      (if List.exists is_next obs_steps then "next-actions" else "");
+      (if List.exists (fun o -> is_next o && (match split ';' o with [_; _; a; _] -> a <> "-" | _ -> false)) obs_steps
+       then "next-actions-plans" else "");
       (* the branches of OnBlockAnnounce, from the observation *)
       String.concat "," (List.sort_uniq compare (List.concat (List.map (fun o ->
         match split ';' o with
@@ -298,6 +336,7 @@ let check inp obs =
       detail = if prop && m = obs then "" else
           Printf.sprintf "%s model=%s" (if prop then "" else if obs_panic then "Process panicked"
                                         else if not rej then "a forged/unlinked response was accepted"
+                                        else if not next_ok then "the ascending requests of NextActions do not tile best+1 .. min(best+1+n*127, target)"
                                         else "the importer was handed a block whose parent is unknown, or a block twice")
             (if String.length m > 600 then String.sub m 0 600 ^ "..." else m) }
   | ["imp"; hdrs; known; fin; blocks] ->
@@ -337,6 +376,7 @@ let cstep = function
   | SFinal n -> "SFinal " ^ cn n
   | SProcess rs -> "SProcess " ^ clist cres rs
   | SAnnounceMsg (w, h, b) -> "SAnnounceMsg " ^ cn w ^ " " ^ chdr h ^ " " ^ cn b
+  | SNextActions (n, b, t) -> "SNextActions " ^ cn n ^ " " ^ cn b ^ " " ^ cn t
 let ev_code = function
   | EImport s -> (ni 0, s) | ESkip s -> (ni 1, s) | EOrphan s -> (ni 2, s) | EDup s -> (ni 3, s)
   | ENothing s -> (ni 4, s) | EFinal s -> (ni 5, s) | EOrphanPruned s -> (ni 6, s)
@@ -363,7 +403,7 @@ let coq inp obs =
                              else cpair (ni 0, hash_of_name e)) (if q = "-" then [] else split ',' q))
             (clist cbool (parse_acc acc))
         | _ -> raise Exit in
-      let exp = List.map pobs (List.filter (fun o -> o <> "." && not (String.length o >= 2 && String.sub o 0 2 = "m;"))
+      let exp = List.map pobs (List.filter (fun o -> o <> "." && not (String.length o >= 2 && (String.sub o 0 2 = "m;" || String.sub o 0 2 = "t;")))
                                  (split '|' obs)) in
       Some (Printf.sprintf "vm_history %s %s %s" (clist cn badl) (clist cstep stepl)
               ("[" ^ String.concat "; " exp ^ "]"))
